@@ -217,7 +217,7 @@ pub fn run(c: &Value) -> Value {
             fn wf<E>(r: &Result<Result<en::Narsese, E>, String>) -> Value {
                 match r {
                     Ok(Ok(v)) => formattable(v),
-                    _ => Value::Null,
+                    _ => json!({"na":true}),
                 }
             }
             let r1 = guarded(|| f.parse::<en::Narsese>(&s));
@@ -256,7 +256,7 @@ pub fn run(c: &Value) -> Value {
             let r = guarded(|| v.clone().try_fold_into(f).map_err(|e| format!("{e:?}")));
             let fm = match &r {
                 Ok(Ok(x)) => formattable(x),
-                _ => Value::Null,
+                _ => json!({"na":true}),
             };
             // lexical formatting of arbitrary values must not panic either
             let lf = guarded(|| lex_format(fmt).format_narsese(&v)).is_ok();
@@ -425,7 +425,7 @@ pub fn run(c: &Value) -> Value {
             let fmt = s_of(c, "fmt");
             let t = lterm_of(&c["t"]).expect("lexical term");
             let folded = guarded(|| t.clone().try_fold_into(enum_format(fmt)).map_err(|e| format!("{e:?}")));
-            let fold_pred = match &folded { Ok(Ok(e)) => predicates(e), _ => Value::Null };
+            let fold_pred = match &folded { Ok(Ok(e)) => predicates(e), _ => json!({"na":true}) };
             json!({
                 "extract": Value::Array(t.clone().extract_terms_to_vec().iter().map(lterm_to).collect()),
                 "pred": predicates(&t),
